@@ -2,7 +2,7 @@
    one theorem per record type / body kind, NetBIOS round trip for all names.
    (listed in props/C17.json extra_theorem_files) *)
 From PV Require Import Base.Prelude Base.Slice Model.DNS Model.DNSMerge Model.DNSRecords Model.DNSNbns Model.DNSMdns
-     Spec.RFC1035 Proofs.DNSSpec Proofs.DNSReject Proofs.DNSHistory Proofs.DNSDecide.
+     Spec.RFC1035 Proofs.DNSSpec Proofs.DNSReject Proofs.DNSHistory Proofs.DNSDecide Proofs.DNSTxt.
 Open Scope N_scope.
 
 (* The DNSTable has no ageing in the code (nothing ever deletes from DNSHandler.DNSTable); ageing exists
@@ -128,3 +128,13 @@ Theorem C17_name_decides : forall data off buf, wf data -> bytes_ok (arr data) -
   end.
 Proof. exact name_decides. Qed.
 Print Assumptions C17_name_decides.
+
+(* parseTXT (the device model from a DNS-SD TXT record) = the RFC 6763 6.3-6.4 reference: split at the
+   first '=', case-insensitive keys, first of model / ty / dvty / md wins; for every list of strings *)
+Theorem C17_parseTXT_reference : forall txt, parseTXT txt = ref_txt_model txt.
+Proof. exact parseTXT_ref. Qed.
+Print Assumptions C17_parseTXT_reference.
+Example C17_parseTXT_example :
+  parseTXT [[116;120;116;118;101;114;115;61;49]; [77;111;100;101;108;61;97;61;98]; [109;100;61;120]] = [97;61;98].
+Proof. exact parseTXT_example. Qed.
+Print Assumptions C17_parseTXT_example.
